@@ -49,11 +49,17 @@ func main() {
 	n := flag.Int("n", 0, "internal: number of schedules of this worker")
 	probe := flag.String("probe", "", "run a named hand-written schedule and print the observations")
 	stress := flag.Int("stress", 0, "internal: free-running stress for N milliseconds, print result JSON")
+	race := flag.Int("race-stats", 0, "internal: N rounds of the UpdateStats race search, print result JSON")
 	flag.Parse()
 	logger.SetLevel(zapcore.FatalLevel)
 
 	if *probe != "" {
 		runProbe(*probe)
+		return
+	}
+	if *race > 0 {
+		b, _ := json.Marshal(runRaceStats(*seed, *race))
+		fmt.Println(string(b))
 		return
 	}
 	if *stress > 0 {
@@ -111,9 +117,9 @@ func main() {
 	for _, name := range probeNames() {
 		add(runInput(probeInput(name), "fixed-"+name))
 	}
-	total, workers, stressMs, stressRuns := 300, 6, 1500, 2
+	total, workers, stressMs, stressRuns, raceRounds, raceRuns := 300, 6, 1500, 2, 500, 3
 	if *tier == "thorough" {
-		total, stressMs, stressRuns = 12000, 15000, 6
+		total, stressMs, stressRuns, raceRounds, raceRuns = 12000, 15000, 6, 4000, 6
 	}
 	per := (total + workers - 1) / workers
 	r := rng.New(*seed)
@@ -172,6 +178,32 @@ func main() {
 			w.Violate("stress:"+v.Kind, v.What, v.Detail)
 		}
 	}
+	// race search for a non-atomic UpdateStats (supporting test): processes run in parallel
+	var rmu sync.Mutex
+	var rwg sync.WaitGroup
+	for i := 0; i < raceRuns; i++ {
+		s := r.U64() >> 1
+		rwg.Add(1)
+		go func(s uint64) {
+			defer rwg.Done()
+			cmd := exec.Command(os.Args[0], "-race-stats", fmt.Sprint(raceRounds), "-seed", fmt.Sprint(s))
+			cmd.Stderr = os.Stderr
+			outb, err := cmd.Output()
+			rmu.Lock()
+			defer rmu.Unlock()
+			var rr RaceResult
+			if err != nil || json.Unmarshal(outb, &rr) != nil {
+				w.Violate("race-crash", fmt.Sprintf("UpdateStats race search process died: %v", err), string(outb))
+				return
+			}
+			w.Evals(rr.Rounds)
+			w.Count("race-stats:runs")
+			for _, v := range rr.Violations {
+				w.Violate(v.Kind, v.What, map[string]any{"race_search": "hC07 -race-stats", "seed": s, "rounds": raceRounds, "detail": v.Detail})
+			}
+		}(s)
+	}
+	rwg.Wait()
 	if err := w.Close(); err != nil {
 		panic(err)
 	}
@@ -207,11 +239,15 @@ func runInput(in *Input, class string) *Result {
 		panic(err)
 	}
 	var obs []Obs
-	for _, l := range in.Labels {
-		obs = append(obs, e.Step(l))
-		if e.hang {
-			break
+	for i := 0; i < len(in.Labels) && !e.hang; i++ {
+		l := in.Labels[i]
+		if l.P == 1 && l.K == "R" && i+1 < len(in.Labels) && in.Labels[i+1].K == "R" && e.Enabled(l) && e.Enabled(in.Labels[i+1]) {
+			oa, ob := e.StepPair(l.T, in.Labels[i+1].T)
+			obs = append(obs, oa, ob)
+			i++
+			continue
 		}
+		obs = append(obs, e.Step(l))
 	}
 	labels := in.Labels[:len(obs)]
 	if !e.hang {
